@@ -1654,6 +1654,7 @@ func (m *metadataAPI) electNewPartitionLeader(ctx context.Context, partition *pa
 	if err := checkLeader(); err != nil {
 		return status.New(codes.FailedPrecondition, err.Error())
 	}
+	verifGate("metadata.elect.checked")
 
 	isr := partition.GetISR()
 	// TODO: add support for "unclean" leader elections.
